@@ -7,6 +7,9 @@ import Blue.Proofs.StoreGc
 import Blue.Proofs.StoreHist
 import Blue.Proofs.StoreRollover
 import Blue.Proofs.FsyncCore
+import Blue.Proofs.ConcWriters
+import Blue.Proofs.ConcWritersEntries
+import Blue.Proofs.ConcWritersStore
 /-! # Property C02 — acknowledged writes survive any crash; recovery is all-or-nothing per batch
 
 Property theorems only.  `Blue.StoreCrash` models the store's file-system protocol: the
@@ -61,7 +64,36 @@ crash point; its operation list `compactOps` is compared with every compaction b
 store); a HISTORY that continues after a GC compaction is outside `crash_recover`, whose
 invariant counts batches (what may be dropped is C05).  Not modelled: a flush racing a compaction.
 `KeyValueStore::poison` is a no-op in the code (`// TODO(rescrv): Actually poison here`): that the
-client stops using a store instance after an error is an assumption about the CLIENT. -/
+client stops using a store instance after an error is an assumption about the CLIENT.
+
+CONCURRENT WRITERS (block `ConcWriters` at the end; `Blue/Proofs/ConcWriters.lean`,
+`ConcWritersEntries.lean`, `ConcWritersStore.lean`, over the composed model `Blue.ConcLog` of C12 —
+write queue, write core, log writer, file, fsync queue, fsync core of ONE log).  Every client of
+`KeyValueStore::write` appends ONE buffer holding all entries of its `WriteBatch`; the write core
+merges the buffers of the callers a leader took into ONE log record (`WriteBatch::merge`), so a
+record holds several client batches and a crash keeps or loses the record as a whole: a client
+batch is all-or-nothing because it lies wholly inside exactly one record
+(`client_batch_in_one_record`).  For every run (any number of writers, any coalescing, overtaking
+between the queues, failing `fdatasync`s) and every crash image (both models, every torn write in
+between): the iterator delivers the first `j` merged records = the buffers of exactly the first
+`gstart s j` callers in link order, every acknowledged caller among them
+(`concurrent_acked_writes_survive_crash`, `concurrent_batches_all_or_nothing`,
+`no_invented_batches`); a caller whose `fdatasync` failed is not acknowledged, its record is in the
+file and is delivered whole or not at all (`failed_sync_writer_not_acked_but_may_survive`: an `Err`
+from `write` does not mean the batch is absent after a reopen); entry by entry
+(`concurrent_recovery_entries`, with `built_buffer_clean` for the buffers `WriteBatch::insert`
+builds): what `log_to_builder` collects is exactly the entries of those client batches, each with
+all its entries.  Link to the sequential theorems (`concurrent_run_is_some_sequential_history`,
+`sequential_puts_recover`): the model (b) / (a) images are byte for byte the files of the
+sequential writer `write; fdatasync; ack` of the merged records after `k` / all rounds (what is
+durable always ends at a record boundary), the reader ends without an error there, and
+`crash_recover` speaks about the history of `k` puts with batch `b` := merged record `b`; a torn
+image delivers the records of that history after `j ≥ k` rounds and may end with a reader error
+(then `log_to_builder` returns it and `open` fails, as for a single writer: C12).  NOT in it:
+the memtable insert and the wait-list hand-off after `log.append` (visibility: C06), several logs
+(a memtable rotation between two writers: each log is its own `ConcLog`), a failing `write`/`flush`
+of the write core, and everything `Blue.ConcLog` leaves out (its header); the driver does not
+replay `Blue.ConcLog` as a whole (the multi-writer fault family stays the run-time evidence). -/
 namespace Blue.Props.C02
 open Blue.StoreCrash
 
@@ -385,6 +417,220 @@ example :
 
 end Fault
 
+-- BEGIN ConcWriters
+/-! ## concurrent writers (`Blue/Proofs/ConcWriters.lean`, over the composed model `Blue.ConcLog`)
+
+`Blue.ConcLog.run P lim evs`: `ConcurrentLogBuilder` after the events `evs` — any number of clients
+inside `KeyValueStore::write` at once (each calls `log.append` with ONE buffer holding all entries
+of its `WriteBatch`: caller `i`, buffer `s.bufs[i]`), any coalescing by the write core and the fsync
+core, any overtaking between the two queues, any `fdatasync` failing.  The write core MERGES the
+buffers of the callers a leader took into one log record (`WriteBatch::merge`: concatenation), so a
+record holds several client batches and a crash keeps or loses the RECORD as a whole; a client
+batch is all-or-nothing because it lies wholly inside one record.  Entries are opaque (a client
+batch is its buffer), as in C12; what `recover_one` replays is the concatenation of the delivered
+records.  `delivered P s t`: the records the reopened iterator hands out when `t` of the bytes
+written since the last successful `fdatasync` survive (`t = 0`: model (b); `t ≥ |pending|`: model
+(a); in between: torn). -/
+section ConcWriters
+open Blue.Log
+open Blue.ConcWriters (gstart LiesAt delivered readerError seqRun toyP good_toyP toyRun entriesOf Clean shared0
+  buildBuffer toyPB good_toyPB toyEntryRun toyEntryRun_clean toyB0 toyB1 toyB2 toyC0 toyC1 toyC2)
+
+/-- **a client batch lies wholly inside exactly one log record**, at a stated offset -/
+theorem client_batch_in_one_record {P : Params} {lim : Nat} (evs : List Blue.ConcLog.Ev) (i : Nat)
+    (w : Blue.ConcLog.WRet) (hw : (Blue.ConcLog.run P lim evs).wrets[i]? = some w) :
+    let s := Blue.ConcLog.run P lim evs
+    ∃ (grp : List (List Nat)) (b : List Nat),
+      s.groups[w.round]? = some grp ∧ s.bufs[i]? = some b ∧ (Blue.ConcLog.merged s)[w.round]? = some grp.flatten
+      ∧ gstart s w.round ≤ i ∧ i < gstart s (w.round + 1)
+      ∧ grp[i - gstart s w.round]? = some b
+      ∧ LiesAt b grp.flatten (grp.take (i - gstart s w.round)).flatten.length
+      ∧ ∀ r', gstart s r' ≤ i → i < gstart s (r' + 1) → r' = w.round :=
+  Blue.ConcWriters.client_batch_in_one_record evs i w hw
+
+/-- **acknowledged writes of concurrent writers survive every crash**: the delivered records are
+    the first `j` link-order merged records = the buffers of exactly the first `gstart s j` callers,
+    each whole; every acknowledged caller is among them, its buffer wholly inside the delivered
+    record `w.round` -/
+theorem concurrent_acked_writes_survive_crash {P : Params} {lim : Nat} (g : Good P) (hlim : lim ≤ P.tableFull)
+    (evs : List Blue.ConcLog.Ev) (t : Nat) :
+    let s := Blue.ConcLog.run P lim evs
+    ∃ j, j ≤ s.groups.length
+      ∧ delivered P s t = (Blue.ConcLog.merged s).take j
+      ∧ delivered P s t = (s.groups.take j).map List.flatten
+      ∧ (s.groups.take j).flatten = s.bufs.take (gstart s j)
+      ∧ gstart s j ≤ s.wrets.length
+      ∧ (delivered P s t).flatten = (s.bufs.take (gstart s j)).flatten
+      ∧ ∀ i, Blue.ConcLog.acked s i = true →
+          i < gstart s j
+          ∧ ∃ (w : Blue.ConcLog.WRet) (grp : List (List Nat)) (b : List Nat),
+              s.wrets[i]? = some w ∧ w.round < j ∧ s.groups[w.round]? = some grp ∧ s.bufs[i]? = some b
+              ∧ (delivered P s t)[w.round]? = some grp.flatten
+              ∧ LiesAt b grp.flatten (grp.take (i - gstart s w.round)).flatten.length :=
+  Blue.ConcWriters.concurrent_acked_writes_survive_crash g hlim evs t
+
+/-- **all-or-nothing per client batch**, acknowledged or not: a caller is among the first
+    `gstart s j` — its record is delivered and holds its buffer wholly — or the record that holds it
+    is not delivered at all -/
+theorem concurrent_batches_all_or_nothing {P : Params} {lim : Nat} (g : Good P) (hlim : lim ≤ P.tableFull)
+    (evs : List Blue.ConcLog.Ev) (t : Nat) :
+    let s := Blue.ConcLog.run P lim evs
+    ∃ j, delivered P s t = (Blue.ConcLog.merged s).take j ∧ j ≤ s.groups.length
+      ∧ (delivered P s t).flatten = (s.bufs.take (gstart s j)).flatten
+      ∧ ∀ (i : Nat) (b : List Nat), s.bufs[i]? = some b →
+        (i < gstart s j ∧ ∃ (w : Blue.ConcLog.WRet) (grp : List (List Nat)),
+            s.wrets[i]? = some w ∧ w.round < j ∧ (delivered P s t)[w.round]? = some grp.flatten
+            ∧ LiesAt b grp.flatten (grp.take (i - gstart s w.round)).flatten.length)
+        ∨ (gstart s j ≤ i ∧ ∀ w, s.wrets[i]? = some w → j ≤ w.round ∧ (delivered P s t)[w.round]? = none) :=
+  Blue.ConcWriters.concurrent_batches_all_or_nothing g hlim evs t
+
+/-- **nothing no client wrote**: a delivered record is the concatenation of buffers clients called
+    `append` with (`link` events) -/
+theorem no_invented_batches {P : Params} {lim : Nat} (g : Good P) (hlim : lim ≤ P.tableFull)
+    (evs : List Blue.ConcLog.Ev) (t : Nat) :
+    (∀ record ∈ delivered P (Blue.ConcLog.run P lim evs) t,
+        ∃ grp ∈ (Blue.ConcLog.run P lim evs).groups, record = grp.flatten ∧ ∀ b ∈ grp, b ∈ (Blue.ConcLog.run P lim evs).bufs)
+    ∧ (∀ record ∈ delivered P (Blue.ConcLog.run P lim evs) t,
+        ∃ grp : List (List Nat), record = grp.flatten ∧ ∀ b ∈ grp, Blue.ConcLog.Ev.link b ∈ evs) :=
+  ⟨Blue.ConcWriters.no_invented_batches g hlim evs t, Blue.ConcWriters.delivered_buffers_are_clients g hlim evs t⟩
+
+/-- **a writer whose covering `fdatasync` failed is not acknowledged, yet its record may survive**:
+    it is in the file, delivered when all written bytes survive, and at every crash image delivered
+    whole or not at all -/
+theorem failed_sync_writer_not_acked_but_may_survive {P : Params} {lim : Nat} (g : Good P) (hlim : lim ≤ P.tableFull)
+    (evs : List Blue.ConcLog.Ev) (i : Nat) (hf : Blue.ConcLog.failed (Blue.ConcLog.run P lim evs) i = true) :
+    let s := Blue.ConcLog.run P lim evs
+    Blue.ConcLog.acked s i = false
+    ∧ ∃ (w : Blue.ConcLog.WRet) (grp : List (List Nat)) (b : List Nat),
+        s.wrets[i]? = some w ∧ s.groups[w.round]? = some grp ∧ s.bufs[i]? = some b
+        ∧ (Blue.ConcLog.merged s)[w.round]? = some grp.flatten
+        ∧ LiesAt b grp.flatten (grp.take (i - gstart s w.round)).flatten.length
+        ∧ (∀ t, s.file.pending.length ≤ t →
+            delivered P s t = Blue.ConcLog.merged s ∧ readerError P s t = false
+            ∧ (delivered P s t)[w.round]? = some grp.flatten)
+        ∧ (∀ t, (delivered P s t)[w.round]? = some grp.flatten ∨ (delivered P s t)[w.round]? = none) :=
+  Blue.ConcWriters.failed_sync_writer_not_acked_but_may_survive g hlim evs i hf
+
+/-- **every crash image of a concurrent run is a crash image of a sequential history**: the
+    sequential writer `write; fdatasync; acknowledge` (`Blue.LogCrash.protocol`, the log half of the
+    `put` block of `Blue.StoreCrash` with batch `b` := merged record `b`) of the link-order merged
+    records, stopped after `k` complete rounds, leaves BYTE FOR BYTE the model (b) image of the
+    concurrent run, every acknowledged caller's record among those `k`; after all rounds, the model
+    (a) image; under both models the reader ends WITHOUT an error (same bytes, same recovery);
+    a torn image delivers the records of that history after `j ≥ k` rounds (the reader may then end
+    with an error, as it may for the sequential writer: C12 `crash_torn_prefix`) -/
+theorem concurrent_run_is_some_sequential_history {P : Params} {lim : Nat} (g : Good P) (hlim : lim ≤ P.tableFull)
+    (evs : List Blue.ConcLog.Ev) :
+    let s := Blue.ConcLog.run P lim evs
+    let recs := Blue.ConcLog.merged s
+    ∃ k, k ≤ recs.length
+      ∧ Blue.LogCrash.crashB s.file = Blue.LogCrash.crashB (seqRun P recs (3 * k))
+      ∧ Blue.LogCrash.crashB (seqRun P recs (3 * k)) = Blue.LogCrash.crashA (seqRun P recs (3 * k))
+      ∧ Blue.LogCrash.acked ((Blue.LogCrash.protocol P recs 0 0).take (3 * k)) = k
+      ∧ (∀ i, Blue.ConcLog.acked s i = true → ∃ w, s.wrets[i]? = some w ∧ w.round < k)
+      ∧ Blue.LogCrash.crashA s.file = Blue.LogCrash.crashA (seqRun P recs (3 * recs.length))
+      ∧ (delivered P s 0 = recs.take k ∧ readerError P s 0 = false)
+      ∧ (∀ t, s.file.pending.length ≤ t → delivered P s t = recs ∧ readerError P s t = false)
+      ∧ ∀ t, ∃ j, k ≤ j ∧ j ≤ recs.length ∧ delivered P s t = recs.take j
+          ∧ delivered P s t = (readSome P (Blue.LogCrash.crashB (seqRun P recs (3 * j))) (recs.length + 1) 0).1 :=
+  Blue.ConcWriters.concurrent_run_is_some_sequential_history g hlim evs
+
+/-- non-vacuity, on the run `toyRun` (= C12 `concToyRun`): three client writers, callers 0 and 1
+    coalesced into ONE record, ONE `fdatasync` covering the two, caller 2's record written while it
+    is in flight.  `s`: right after that call returned — callers 0 and 1 acknowledged, caller 2 not.
+    Crash with none (model (b)) / 5 (torn) / all 12 (model (a)) of the pending bytes: one record and
+    a clean end / one record and a reader error / both records.  Caller 1's buffer `[4,5]` lies in
+    record 0 at offset 3.  `s'`: caller 2's own `fdatasync` has FAILED — not acknowledged, record
+    not delivered after a power loss, delivered whole after a process crash.  The model (b) image is
+    the file of the sequential writer after 1 round, the model (a) image after 2. -/
+example :
+    let s := Blue.ConcLog.run toyP 12 (toyRun.take 9)
+    let s' := Blue.ConcLog.run toyP 12 toyRun
+    s.bufs = [[1, 2, 3], [4, 5], [6, 7, 8, 9]]
+    ∧ Blue.ConcLog.merged s = [[1, 2, 3, 4, 5], [6, 7, 8, 9]]
+    ∧ (gstart s 0, gstart s 1, gstart s 2) = (0, 2, 3)
+    ∧ (Blue.ConcLog.acked s 0, Blue.ConcLog.acked s 1, Blue.ConcLog.acked s 2) = (true, true, false)
+    ∧ (delivered toyP s 0, readerError toyP s 0) = ([[1, 2, 3, 4, 5]], false)
+    ∧ (delivered toyP s 5, readerError toyP s 5) = ([[1, 2, 3, 4, 5]], true)
+    ∧ (delivered toyP s 12, readerError toyP s 12) = ([[1, 2, 3, 4, 5], [6, 7, 8, 9]], false)
+    ∧ LiesAt [4, 5] [1, 2, 3, 4, 5] 3
+    ∧ (Blue.ConcLog.failed s' 2, Blue.ConcLog.acked s' 2) = (true, false)
+    ∧ s'.file.pending.length = 12
+    ∧ delivered toyP s' 0 = [[1, 2, 3, 4, 5]]
+    ∧ delivered toyP s' 12 = [[1, 2, 3, 4, 5], [6, 7, 8, 9]]
+    ∧ Blue.LogCrash.crashB s.file = Blue.LogCrash.crashB (seqRun toyP (Blue.ConcLog.merged s) 3)
+    ∧ Blue.LogCrash.crashA s.file = Blue.LogCrash.crashA (seqRun toyP (Blue.ConcLog.merged s) 6) := by decide
+
+/-- … and the theorems apply to it (hypotheses discharged) -/
+example := client_batch_in_one_record (P := toyP) (lim := 12) (toyRun.take 9) 1 ⟨0, 5⟩ (by decide)
+example (t : Nat) := concurrent_acked_writes_survive_crash good_toyP (lim := 12) (by decide) (toyRun.take 9) t
+example (t : Nat) := concurrent_batches_all_or_nothing good_toyP (lim := 12) (by decide) toyRun t
+example (t : Nat) := no_invented_batches good_toyP (lim := 12) (by decide) toyRun t
+example := failed_sync_writer_not_acked_but_may_survive good_toyP (lim := 12) (by decide) toyRun 2 (by decide)
+example := concurrent_run_is_some_sequential_history good_toyP (lim := 12) (by decide) toyRun
+/-- **the store-level sequential history**: `k` sequential puts of `Blue.StoreCrash` are, per batch,
+    `append to the log; fdatasync; acknowledge` (the events of `Blue.LogCrash.protocol`, whose file
+    is `seqRun`); after them there are `k` acknowledgements and the reopen yields exactly the
+    batches `0 … k-1` under both models (`crash_recover` at the end of that history).  With `k` of
+    `concurrent_run_is_some_sequential_history` and batch `b` := merged record `b`, the log of that
+    store is byte for byte the model (b) image of the concurrent run. -/
+theorem sequential_puts_recover (k : Nat) :
+    opsOf (List.replicate k Client.put) kv0
+      = (List.range k).flatMap (fun b => [Op.logAppend 0 (0 + b), .logSync 0, .ack (0 + b)])
+    ∧ Blue.StoreCrash.acked (opsOf (List.replicate k Client.put) kv0) = k
+    ∧ appended (opsOf (List.replicate k Client.put) kv0) = k
+    ∧ (∃ l, recoverB (run fs0 (opsOf (List.replicate k Client.put) kv0)) = some l ∧ l.Perm (List.range k))
+    ∧ (∃ l, recoverA (run fs0 (opsOf (List.replicate k Client.put) kv0)) = some l ∧ l.Perm (List.range k)) :=
+  ⟨Blue.ConcWriters.puts_ops k kv0, Blue.ConcWriters.sequential_puts_recover k⟩
+
+/-- **recovery, entry by entry** (`LogIterator::next` decodes each delivered record entry by entry,
+    `Blue.Damage.batchEntries` / `deliver`; `log_to_builder` collects the entries, `replayOf`).
+    Every caller's buffer decodes cleanly (`hclean`; discharged for the buffers `WriteBatch::insert`
+    builds by `built_buffer_clean`).  At every crash image: the entries handed to `log_to_builder`
+    are exactly the entries of the client batches of callers `0 … gstart s j - 1`, in link order —
+    each of those batches with ALL its entries, no entry of any other batch; every acknowledged
+    caller is below `gstart s j`; when the frame reader ends without an error (always under the two
+    persistence models) that is what the recovered SST is built from -/
+theorem concurrent_recovery_entries {P : Params} {lim : Nat} (g : Good P) (hlim : lim ≤ P.tableFull)
+    (evs : List Blue.ConcLog.Ev) (t : Nat) (hclean : ∀ b ∈ (Blue.ConcLog.run P lim evs).bufs, Clean b) :
+    let s := Blue.ConcLog.run P lim evs
+    ∃ j, j ≤ s.groups.length ∧ delivered P s t = (Blue.ConcLog.merged s).take j
+      ∧ Blue.Damage.deliver (delivered P s t) (readerError P s t)
+          = (((s.bufs.take (gstart s j)).map entriesOf).flatten, readerError P s t)
+      ∧ (∀ i, Blue.ConcLog.acked s i = true → i < gstart s j)
+      ∧ (readerError P s t = false →
+          Blue.Damage.replayOf (Blue.Damage.deliver (delivered P s t) (readerError P s t))
+            = Blue.Damage.replayOf (((s.bufs.take (gstart s j)).map entriesOf).flatten, false)) :=
+  Blue.ConcWriters.concurrent_recovery_entries g hlim evs t hclean
+
+/-- the buffer `WriteBatch::insert` builds from a non-empty list of well-formed entries (`shared = 0`)
+    decodes cleanly, to exactly those entries -/
+theorem built_buffer_clean (es : List Blue.EntryCodec.Entry) (hne : es ≠ [])
+    (hw : ∀ e ∈ es, e.Wf ∧ shared0 e) :
+    Clean (buildBuffer es) ∧ entriesOf (buildBuffer es) = es.map Blue.ConcWriters.kvOf :=
+  Blue.ConcWriters.built_buffer_clean es hne hw
+
+/-- non-vacuity with real entries: client 0's `WriteBatch` has TWO entries, clients 1 and 2 one
+    each (`toyB0/1/2` are the bytes `WriteBatch::insert` builds: `toy_buffers_built`); clients 0 and
+    1 are merged into one record and acknowledged by one `fdatasync`; after a power loss the
+    iterator hands out the two entries of client 0 and the entry of client 1, nothing of client 2;
+    after a process crash all four -/
+example :
+    let s := Blue.ConcLog.run toyPB 40 (toyEntryRun.take 9)
+    s.bufs = [toyB0, toyB1, toyB2]
+    ∧ (Blue.ConcLog.acked s 0, Blue.ConcLog.acked s 1, Blue.ConcLog.acked s 2) = (true, true, false)
+    ∧ (delivered toyPB s 0, readerError toyPB s 0) = ([toyB0 ++ toyB1], false)
+    ∧ (gstart s 1, gstart s 2) = (2, 3)
+    ∧ Blue.Damage.deliver (delivered toyPB s 0) false = ((toyC0 ++ toyC1).map Blue.ConcWriters.kvOf, false)
+    ∧ Blue.Damage.deliver (delivered toyPB s 16) false = ((toyC0 ++ toyC1 ++ toyC2).map Blue.ConcWriters.kvOf, false) := by
+  decide +kernel
+example (t : Nat) :=
+  concurrent_recovery_entries good_toyPB (lim := 40) (by decide) (toyEntryRun.take 9) t (toyEntryRun_clean 9)
+example := Blue.ConcWriters.toy_buffers_built
+example := Blue.ConcWriters.toy_buffers_clean
+end ConcWriters
+-- END ConcWriters
+
 end Blue.Props.C02
 
 #print axioms Blue.Props.C02.crash_recover
@@ -411,6 +657,15 @@ end Blue.Props.C02
 #print axioms Blue.Props.C02.img_means
 #print axioms Blue.Props.C02.fault_epoch
 #print axioms Blue.Props.C02.img_empty
+#print axioms Blue.Props.C02.client_batch_in_one_record
+#print axioms Blue.Props.C02.concurrent_acked_writes_survive_crash
+#print axioms Blue.Props.C02.concurrent_batches_all_or_nothing
+#print axioms Blue.Props.C02.no_invented_batches
+#print axioms Blue.Props.C02.failed_sync_writer_not_acked_but_may_survive
+#print axioms Blue.Props.C02.concurrent_run_is_some_sequential_history
+#print axioms Blue.Props.C02.sequential_puts_recover
+#print axioms Blue.Props.C02.concurrent_recovery_entries
+#print axioms Blue.Props.C02.built_buffer_clean
 #print axioms Blue.LogCrash.crash_prefix
 #print axioms Blue.FlushCrash.crash_recover_B
 #print axioms Blue.FlushCrash.crash_recover_A
